@@ -15,14 +15,19 @@ typedef struct {
   const char *corpus;		/* colon separated .orc files */
   unsigned flagmask_mode;	/* 0 default flags */
   const char *only;		/* replay: only this program name */
+  const char *prop;		/* key prefix */
+  int featsets;			/* expand each target into every subset of its feature bits (C11) */
+  int lite;			/* reduced input sweep per (program, flag vector) */
+  long only_flags;
 } Opt;
 
 static Opt opt;
-static VTarget targets[8];
+static VTarget targets[160];
+static char tlabel[160][24];
 static int ntargets;
 
 static long st_programs, st_compiled, st_runs, st_nocompile, st_elems, st_pt, st_viol;
-static long st_progs_native;
+static long st_progs_native, st_samecode;
 static int nsamples;
 
 #define MAXKEYS 512
@@ -68,17 +73,22 @@ static const char *kinds_sig (OrcProgram * p)
   return buf;
 }
 
+static const char *tlab (const VTarget * t)
+{
+  return opt.featsets ? tlabel[t - targets] : t->name;
+}
+
 static void report (OrcProgram * p, const VTarget * t, const char *kind, const VRunCfg * c, const char *msg, const char *text)
 {
   char key[900];
-  snprintf (key, sizeof (key), "C01|%s|%s|%s|%s", t->name, opsig (p), kinds_sig (p), kind);
+  snprintf (key, sizeof (key), "%s|%s|%s|%s|%s", opt.prop, tlab (t), opsig (p), kinds_sig (p), kind);
   st_viol++;
   if (key_seen (key)) return;
   v_out ("{\"t\":\"viol\",\"key\":\"%s\",\"what\":\"%s: %s; n=%d m=%d off=[%d,%d,%d,%d|%d,%d,%d,%d] stride_extra=%d pchoice=%d vbase=%llu; program: %s\","
-      "\"replay\":{\"program\":\"%s\",\"target\":\"%s\",\"n\":%d,\"m\":%d,\"off\":[%d,%d,%d,%d,%d,%d,%d,%d,%d,%d,%d,%d],\"stride_extra\":%d,\"pchoice\":%d,\"vbase\":%llu}}",
-      v_esc (key), t->name, v_esc (msg), c->n, c->m, c->off[0], c->off[1], c->off[2], c->off[3], c->off[4], c->off[5], c->off[6], c->off[7],
+      "\"replay\":{\"program\":\"%s\",\"target\":\"%s\",\"flags\":%u,\"n\":%d,\"m\":%d,\"off\":[%d,%d,%d,%d,%d,%d,%d,%d,%d,%d,%d,%d],\"stride_extra\":%d,\"pchoice\":%d,\"vbase\":%llu}}",
+      v_esc (key), tlab (t), v_esc (msg), c->n, c->m, c->off[0], c->off[1], c->off[2], c->off[3], c->off[4], c->off[5], c->off[6], c->off[7],
       c->stride_extra, c->pchoice, (unsigned long long) c->vbase, v_esc (oprog_oneline (p)),
-      v_esc (text ? text : oprog_oneline (p)), t->name, c->n, c->m,
+      v_esc (text ? text : oprog_oneline (p)), t->name, t->flags, c->n, c->m,
       c->off[0], c->off[1], c->off[2], c->off[3], c->off[4], c->off[5], c->off[6], c->off[7], c->off[8], c->off[9], c->off[10], c->off[11],
       c->stride_extra, c->pchoice, (unsigned long long) c->vbase);
 }
@@ -151,6 +161,8 @@ static void set_offsets (OrcProgram * p, VRunCfg * c, int lead_off, int variant)
 static void explore_program (OrcProgram * p, const char *text, long pidx)
 {
   int ti, any = 0;
+  uint64_t codeh[160];
+  int ncodeh = 0;
   st_programs++;
   for (ti = 0; ti < ntargets; ti++) {
     const VTarget *t = &targets[ti];
@@ -162,7 +174,7 @@ static void explore_program (OrcProgram * p, const char *text, long pidx)
     OrcExecutor exr;
     char key[700];
 
-    snprintf (key, sizeof (key), "C01|%s|%s|%s", t->name, opsig (p), kinds_sig (p));
+    snprintf (key, sizeof (key), "%s|%s|%s|%s", opt.prop, tlab (t), opsig (p), kinds_sig (p));
     v_case (pidx, key, text ? text : oprog_oneline (p));
     v_watchdog (120);
     orc_program_reset (p);	/* a failed compile for one target leaves its error on the program until reset */
@@ -170,6 +182,14 @@ static void explore_program (OrcProgram * p, const char *text, long pidx)
     if (!ORC_COMPILE_RESULT_IS_SUCCESSFUL (res)) { st_nocompile++; continue; }
     st_compiled++;
     any = 1;
+    if (opt.featsets && p->orccode) {
+      /* identical machine code under another flag vector has identical results */
+      uint64_t h = v_hash64 (p->orccode->code, p->orccode->code_size, (uint64_t) (size_t) t->target);
+      int d, dup = 0;
+      for (d = 0; d < ncodeh; d++) if (codeh[d] == h) dup = 1;
+      if (dup) { st_samecode++; continue; }
+      if (ncodeh < 160) codeh[ncodeh++] = h;
+    }
     sz = min_var_size (p);
     V = regsize / sz;
     N = (opt.thorough ? 4 : 2) * V * 2 + 3;
@@ -180,7 +200,7 @@ static void explore_program (OrcProgram * p, const char *text, long pidx)
     c.m = p->is_2d ? (p->constant_m > 0 ? p->constant_m : 2) : 1;
     c.stride_extra = p->is_2d ? 8 : 0;
     for (n = (p->constant_n > 0 ? N : 0); n <= N && !bad; n++) {
-      int step, nvar = opt.thorough ? 2 : 1, var;
+      int step, nvar = (opt.thorough && !opt.lite) ? 2 : 1, var;
       c.n = n;
       c.vbase = (uint64_t) n * 3;
       c.pchoice = n % 5;
@@ -192,6 +212,7 @@ static void explore_program (OrcProgram * p, const char *text, long pidx)
       }
       for (var = 0; var < nvar && !bad; var++)
         for (lo = 0; lo < 32 && !bad; lo += step) {
+          if (opt.lite && lo > 2 * step && lo != 16 + step) continue;	/* aligned, +1, +2 elements, past 16 */
           set_offsets (p, &c, lo, var);
           st_pt++;
           if (one_run (p, t, &c, &R, &exr, text)) bad = 1;
@@ -237,7 +258,7 @@ static void explore_program (OrcProgram * p, const char *text, long pidx)
       if (total > 70000) total = 70000;
       if (total < 64) total = 64;
       for (i = ORC_VAR_P1; i <= ORC_VAR_P8; i++) if (p->vars[i].size) have_param = 1;
-      npc = have_param ? (opt.thorough ? 8 : 5) : 1;
+      npc = have_param ? (opt.lite ? 2 : opt.thorough ? 8 : 5) : 1;
       /* loadoff / ldres keep the source requirement proportional to n: fine */
       for (pc = 0; pc < npc && !bad; pc++) {
         memset (&c, 0, sizeof (c));
@@ -262,6 +283,39 @@ static void explore_program (OrcProgram * p, const char *text, long pidx)
 }
 
 /* ------------------------------------------------------------ enumeration */
+
+/* C11: every subset of each target's feature bits, 64-bit, default frame
+ * pointer / jump flags (the host executes every subset). */
+static int expand_featsets (int n)
+{
+  VTarget base[8];
+  int i, k = 0;
+  memcpy (base, targets, sizeof (base));
+  for (i = 0; i < n; i++) {
+    unsigned feat[8], nf = 0, all = 0, m, j;
+    if (!strcmp (base[i].name, "sse")) {
+      feat[nf++] = ORC_TARGET_SSE_SSE2; feat[nf++] = ORC_TARGET_SSE_SSE3; feat[nf++] = ORC_TARGET_SSE_SSSE3;
+      feat[nf++] = ORC_TARGET_SSE_SSE4_1; feat[nf++] = ORC_TARGET_SSE_SSE4_2;
+    } else if (!strcmp (base[i].name, "avx")) {
+      feat[nf++] = ORC_TARGET_AVX_AVX; feat[nf++] = ORC_TARGET_AVX_AVX2;
+    } else {
+      feat[nf++] = ORC_TARGET_MMX_MMX; feat[nf++] = ORC_TARGET_MMX_MMXEXT; feat[nf++] = ORC_TARGET_MMX_3DNOW;
+      feat[nf++] = ORC_TARGET_MMX_SSSE3; feat[nf++] = ORC_TARGET_MMX_SSE4_1; feat[nf++] = ORC_TARGET_MMX_SSE4_2;
+    }
+    for (j = 0; j < nf; j++) all |= feat[j];
+    for (m = 0; m < (1u << nf); m++) {
+      unsigned f = base[i].flags & ~all;
+      for (j = 0; j < nf; j++) if (m & (1u << j)) f |= feat[j];
+      if (opt.only_flags >= 0 && (long) f != opt.only_flags) continue;
+      targets[k].target = base[i].target;
+      targets[k].name = base[i].name;
+      targets[k].flags = f;
+      snprintf (tlabel[k], sizeof (tlabel[k]), "%s/0x%x", base[i].name, f);
+      k++;
+    }
+  }
+  return k;
+}
 
 static long g_idx, g_start;
 
@@ -305,6 +359,7 @@ static void worker (long start, void *user)
   v_ops_init ();
   v_install_handlers ();
   ntargets = v_get_targets (targets, opt.targets);
+  if (opt.featsets) ntargets = expand_featsets (ntargets);
   if (strstr (opt.levels, "L1")) pgen_L1 (on_prog, NULL, opt.classes);
   if (strstr (opt.levels, "L2")) pgen_L2 (on_prog, NULL, opt.classes);
   if (strstr (opt.levels, "L3")) pgen_L3 (on_prog, NULL, opt.classes);
@@ -331,8 +386,8 @@ static void worker (long start, void *user)
       free (code);
     }
   }
-  v_out ("{\"t\":\"stat\",\"programs\":%ld,\"programs_native\":%ld,\"compiled\":%ld,\"nocompile\":%ld,\"runs\":%ld,\"points\":%ld,\"elements\":%ld,\"violations_raw\":%ld}",
-      st_programs, st_progs_native, st_compiled, st_nocompile, st_runs, st_pt, st_elems, st_viol);
+  v_out ("{\"t\":\"stat\",\"programs\":%ld,\"programs_native\":%ld,\"compiled\":%ld,\"nocompile\":%ld,\"runs\":%ld,\"points\":%ld,\"elements\":%ld,\"violations_raw\":%ld,\"same_code_skipped\":%ld}",
+      st_programs, st_progs_native, st_compiled, st_nocompile, st_runs, st_pt, st_elems, st_viol, st_samecode);
   v_out ("{\"t\":\"max\",\"space_size\":%ld}", g_idx);
   if (vr_ftz_before_rounding) v_out ("{\"t\":\"viol\",\"key\":\"C18|paths|ftz-before-rounding\",\"what\":\"native float code returned a zero where emulation returns the smallest normal (result tiny before rounding, normal after): %ld elements in this shard\",\"replay\":{\"program\":\".function t\\n.dest 4 d1\\n.source 4 s1\\n.source 4 s2\\nmulf d1, s1, s2\\n\",\"a\":\"0x3f7fffff\",\"b\":\"0x00800000\"}}", vr_ftz_before_rounding);
   if (v_expired ()) v_out ("{\"t\":\"incomplete\",\"why\":\"deadline reached at program index %ld of shard %d\"}", g_idx, opt.shard);
@@ -348,11 +403,15 @@ int main (int argc, char **argv)
   opt.targets = v_arg (argc, argv, "--targets", "avx,sse,mmx");
   opt.corpus = v_arg (argc, argv, "--corpus", NULL);
   opt.only = v_arg (argc, argv, "--only", NULL);
+  opt.prop = v_arg (argc, argv, "--prop", "C01");
+  opt.featsets = v_argi (argc, argv, "--featsets", 0);
+  opt.lite = v_argi (argc, argv, "--lite", 0);
+  opt.only_flags = v_argi (argc, argv, "--only-flags", -1);
   vr_float_mode = !strcmp (v_arg (argc, argv, "--classes", "int"), "float");
   v_finite_only = vr_float_mode;
   opt.classes = !strcmp (v_arg (argc, argv, "--classes", "int"), "float") ? PG_FLOAT : !strcmp (v_arg (argc, argv, "--classes", "int"), "both") ? (PG_INT | PG_FLOAT) : PG_INT;
   dl = v_argi (argc, argv, "--deadline", 0);
   if (dl > 0) v_deadline = v_now () + dl;
-  v_supervise (worker, NULL, "C01");
+  v_supervise (worker, NULL, opt.prop);
   return 0;
 }
